@@ -161,6 +161,9 @@ class ProfmodExtractor:
                         modname_list.append(modname)
             elif isinstance(node, ast.ImportFrom):
                 for name in node.names:
+                    if name.name == '*':
+                        # `from foo import *` binds no name `*` to register
+                        continue
                     modname = node.module + '.' + name.name
                     if modname not in modname_list:
                         alias = name.asname or name.name
